@@ -23,36 +23,37 @@ Fixpoint al_slot (l : list (Z * list Z)) (a k : Z) : bool :=
 Definition initial_sets (pre : Z -> bool) (al : list (Z * list Z)) : asets :=
   mkAS (fun a => pre a || al_acc al a) (al_slot al).
 
-(* One history step on (current sets, stack of snapshots). [obs] is what the implementation
-   answered for this step; it is consulted only to learn whether a create succeeded and whether
-   a delegation target was loaded (facts about balances/code, not about access status).
-   Returns the cold answers the specification expects, in the order revm reports them. *)
-Definition spec_step (d : db) (codeof : Z -> Z) (ws : asets * list asets) (o : hop) (obs : list Z)
-  : (asets * list asets) * list bool :=
+(* What a step needs to know that is not access status: whether the loaded account delegates
+   (EIP-7702) and to whom, and whether a create succeeded (it then opens a frame). *)
+Record ann := mkAnn { an_deleg : option Z; an_created : bool }.
+
+(* One history step on (current sets, stack of snapshots). Returns the cold answers the
+   specification expects, in the order revm reports them. *)
+Definition spec_step (ws : asets * list asets) (o : hop) (an : ann) : (asets * list asets) * list bool :=
   let '(w, stk) := ws in
   match o with
   | HLoad a => let '(w1, c) := acc_access w a in ((w1, stk), [c])
   | HLoadDelegated a =>
       let '(w1, c) := acc_access w a in
-      match nth 2 obs (-1) =? -1, db_delegate d (codeof a) with
-      | false, Some t => let '(w2, c2) := acc_access w1 t in ((w2, stk), [c; c2])
-      | _, _ => ((w1, stk), [c])
+      match an_deleg an with
+      | Some t => let '(w2, c2) := acc_access w1 t in ((w2, stk), [c; c2])
+      | None => ((w1, stk), [c])
       end
   | HTransfer f t _ => let '(w1, _) := acc_access w f in let '(w2, _) := acc_access w1 t in ((w2, stk), [])
   | HSload a k | HSstore a k _ => let '(w1, c) := slot_access w a k in ((w1, stk), [c])
   | HSelfdestruct _ t => let '(w1, c) := acc_access w t in ((w1, stk), [c])
-  | HCreate _ _ _ _ => if nth 0 obs 1 =? 0 then ((w, w :: stk), []) else ((w, stk), [])
+  | HCreate _ _ _ _ => if an_created an then ((w, w :: stk), []) else ((w, stk), [])
   | HCheckpoint => ((w, w :: stk), [])
   | HCommit => match stk with _ :: r => ((w, r), []) | [] => ((w, stk), []) end
   | HRevert => match stk with w0 :: r => ((w0, r), []) | [] => ((w, stk), []) end
   | _ => ((w, stk), [])
   end.
 
-Fixpoint spec_run (d : db) (codeof : Z -> Z) (ws : asets * list asets) (h : list hop) (obs : list (list Z))
+Fixpoint spec_run (ws : asets * list asets) (h : list hop) (ans : list ann)
   : (asets * list asets) * list (list bool) :=
-  match h, obs with
-  | o :: r, ob :: obr =>
-      let '(ws1, a) := spec_step d codeof ws o ob in
-      let '(ws2, ar) := spec_run d codeof ws1 r obr in (ws2, a :: ar)
+  match h, ans with
+  | o :: r, an :: anr =>
+      let '(ws1, a) := spec_step ws o an in
+      let '(ws2, ar) := spec_run ws1 r anr in (ws2, a :: ar)
   | _, _ => (ws, [])
   end.
